@@ -36,6 +36,24 @@ pub struct CCase {
     pub sched_seed: u64,
     /// repetitions of the concurrent phase (each with another yield seed)
     pub rounds: usize,
+    /// in the concurrent phase every job's text gets a tail of definitions whose identifiers have never
+    /// been interned in this process (the same tail for all threads of a round, another one per round):
+    /// the threads then intern the same new names at the same time. The tail does not change what the
+    /// job outputs, so the outcome computed alone (without it) is still the reference.
+    #[serde(default)]
+    pub fresh_names: bool,
+}
+
+/// 24 chained functions and a global that calls the last one: every name is defined and referenced
+fn fresh_tail(seed: u64, round: usize) -> String {
+    let nonce = format!("{:x}r{round}", seed & 0xffff_ffff_ffff);
+    let mut s = String::from("\n");
+    s.push_str(&format!("fn zq{nonce}_0(x){{ x }}\n"));
+    for i in 1..24 {
+        s.push_str(&format!("fn zq{nonce}_{i}(x){{ zq{nonce}_{}(x) + {i}.0 }}\n", i - 1));
+    }
+    s.push_str(&format!("let zq{nonce}_g = zq{nonce}_23(1.0)\n"));
+    s
 }
 
 /// What one job yields, rendered so that equality is what the property asks for.
@@ -155,6 +173,22 @@ pub fn check(c: &CCase) -> Checked {
             alone.push(None);
         }
     }
+    // a tail of the same shape (other names) must leave the job's outcome alone as it is; jobs for which it
+    // does not (the text ends inside a construct, a macro-stage section ...) run without a tail
+    let tail_ok: Vec<bool> = c
+        .jobs
+        .iter()
+        .enumerate()
+        .map(|(ji, j)| {
+            c.fresh_names
+                && alone[ji].as_deref().is_some_and(|a| a.starts_with("ok:"))
+                && {
+                    let mut t = j.clone();
+                    t.src.push_str(&fresh_tail(c.sched_seed ^ 0x5a5a_5a5a, 9999));
+                    Some(outcome(&t)) == alone[ji]
+                }
+        })
+        .collect();
     if !interner_alive() {
         res.poisoned = true;
         return res;
@@ -165,7 +199,18 @@ pub fn check(c: &CCase) -> Checked {
         verif::order_log_start();
         let mut hs = vec![];
         for (ti, list) in c.threads.iter().enumerate() {
-            let jobs: Vec<Job> = list.iter().map(|&i| c.jobs[i].clone()).collect();
+            let tail = if c.fresh_names { fresh_tail(c.sched_seed, round) } else { String::new() };
+            let jobs: Vec<Job> = list
+                .iter()
+                .map(|&i| {
+                    let mut j = c.jobs[i].clone();
+                    // only texts that are accepted alone: a tail after a syntax error would change the diagnostics
+                    if tail_ok[i] {
+                        j.src.push_str(&tail);
+                    }
+                    j
+                })
+                .collect();
             let barrier = barrier.clone();
             let seed = c.sched_seed ^ ((ti as u64 + 1) * 0x9e37_79b9_7f4a_7c15) ^ ((round as u64) << 32);
             let one_in = c.yield_one_in;
@@ -238,6 +283,9 @@ fn exec(c: &CCase, idx: usize, out: &mut Out) -> bool {
     out.count("interner_ops_logged", r.ops_logged);
     out.count("interner_lock_handovers_between_threads", r.handovers);
     out.count(&format!("threads:{}", c.threads.len()), 1);
+    if c.fresh_names {
+        out.count("schedules_interning_fresh_identifiers_concurrently", 1);
+    }
     for h in &r.order_hashes {
         out.set("distinct_interleavings_observed", h.clone());
     }
@@ -336,7 +384,8 @@ pub fn gen_ccase(args: &Args, rng: &mut Rng, files: &[PathBuf]) -> CCase {
             (0..m).map(|_| if identical { 0 } else if rng.chance(1, 2) { t % jobs.len() } else { rng.below(jobs.len()) }).collect()
         })
         .collect();
-    CCase { jobs, threads, yield_one_in: *rng.pick(&[0u32, 1, 2, 8, 64, 512]), sched_seed: rng.next(), rounds: if args.thorough() { 3 } else { 2 } }
+    let fresh_names = rng.chance(1, 2);
+    CCase { jobs, threads, yield_one_in: *rng.pick(&[0u32, 1, 2, 8, 64, 512]), sched_seed: rng.next(), rounds: if args.thorough() { 3 } else { 2 }, fresh_names }
 }
 
 pub fn run(args: &Args, out: &mut Out) {
